@@ -106,7 +106,7 @@ theorem readLen_some (k : Nat) (bs : Bytes) (n : Nat) (rest : Bytes) (h : readLe
 
 theorem decBody_no_panic (s : Slot) (hs : s.wf = true) (iei : UInt8) (bs : Bytes) :
     decBody s iei bs ≠ .panic := by
-  unfold decBody
+  unfold decBody decContent
   split
   · simp
   · rename_i len bs1 hrl
@@ -143,7 +143,7 @@ theorem decBody_encBody (s : Slot) (hs : s.wf = true) (v : IEVal) (hv : ValOK s 
   obtain ⟨hlen, hg, hshape⟩ := hv
   have hk : s.lenSize ≤ 2 := by
     unfold Slot.wf at hs; simp at hs; exact hs.1
-  unfold encBody encContent decBody
+  unfold encBody encContent decBody decContent
   cases hst : s.store with
   | octet =>
     simp only [hst] at hshape
@@ -198,7 +198,7 @@ theorem decBody_encBody (s : Slot) (hs : s.wf = true) (v : IEVal) (hv : ValOK s 
 theorem decBody_sound (s : Slot) (iei : UInt8) (bs : Bytes) (v : IEVal) (rest : Bytes)
     (h : decBody s iei bs = .ok (v, rest)) :
     ValOK s v ∧ v.iei = iei ∧ ∃ b, encBody s v = .ok b ∧ bs = b ++ rest := by
-  unfold decBody at h
+  unfold decBody decContent at h
   split at h
   · simp at h
   · rename_i len bs1 hrl
